@@ -256,3 +256,9 @@ ASSUMPTIONS = [
     'rewrite rules R5 (write! -> sink with slots derived from the format literal), R7, R11 (trait conversion call -> stub of its impl), R12 (.rem/.div method -> operator)',
     'machine arithmetic is NOT treated as mathematical: Verus checks every + - * / % and cast in the extracted bodies; Rust signed / and % truncate toward zero (Verus semantics for exec code)',
 ]
+
+BOUNDED = {p: [{'name': 'temporal-literals-and-zones', 'script': 'tempdiff.py', 'args': [],
+                'functions': ['feel/src/temporal (regex patterns RE_DATE / RE_TIME / RE_DATE_AND_TIME, duration parsers, get_zone_offset through chrono-tz, TryFrom<(FeelNumber, FeelNumber, FeelNumber)> for FeelDate)'],
+                'bound': '2 733 FEEL expressions: date / time / date-and-time / duration literals from component grids (accepted, and equal to what their text form reads back as) and with one separator replaced by a foreign '
+                         'character or a component out of range (null); date(y, m, d) for 6 years x 13 months x 14 days including values beyond 256 and 65536; the UTC offset in force at local times every 30 minutes around each '
+                         '2020 / 2021 transition of five IANA zones (ambiguous and non-existent local times excluded) against CPython zoneinfo'}] for p in ('C14', 'C15')}
